@@ -197,5 +197,36 @@ func c03TwoListeners(c *vk.Ctx, r *rand.Rand, prop string) bool {
 		c.Count("one_socket_two_listeners_checked", 1)
 		c.Eval("two-listeners-one-handler|one-client-socket-two-keys")
 	}
+	// --- one of the two listeners goes away (a reload that drops one port of the service): the
+	// associations of the OTHER listener are not touched ---
+	{
+		k := keys[0]
+		cl, err := newUDPClient(net.IPv4(198, 51, 103, 150).To4(), 0, k)
+		if err == nil {
+			id := nextID(c.Batch)
+			cl.Send(ssUDP(k, randBytes(r, k.Codec().C.SaltSize), targets[0].addr(), mkUDPPayload(id, 0, 0, 40)), rig.AddrOf(0))
+			g1, ok := targets[0].waitID(id, udpB)
+			if ok {
+				rig.ExtraPC[0].Close() // the second listener; its Handle loop returns and expires ITS associations
+				time.Sleep(150 * time.Millisecond)
+				pid := nextID(c.Batch)
+				_, sp, _ := net.SplitHostPort(g1.From)
+				ua, _ := net.ResolveUDPAddr("udp", "203.0.113.77:"+sp)
+				targets[0].Send(replyPayload(pid, 1, 40), ua)
+				_, delivered := cl.waitReply(k, pid|1<<56, udpB)
+				id2 := nextID(c.Batch)
+				cl.Send(ssUDP(k, randBytes(r, k.Codec().C.SaltSize), targets[0].addr(), mkUDPPayload(id2, 0, 0, 40)), rig.AddrOf(0))
+				g2, ok2 := targets[0].waitID(id2, udpB)
+				c.Eval("two-listeners-one-handler|one-listener-closed")
+				if !delivered || !ok2 || g2.From != g1.From {
+					c.Violation(prop+"/association-of-one-listener-ended-when-another-listener-closed", map[string]any{"reply_delivered_after_the_other_listener_closed": delivered, "next_datagram_forwarded": ok2, "outbound_before": g1.From, "outbound_after": g2.From, "nat_timeout": "30s"})
+					cl.Close()
+					return false
+				}
+				c.Count("associations_surviving_the_close_of_another_listener", 1)
+			}
+			cl.Close()
+		}
+	}
 	return true
 }
